@@ -89,6 +89,12 @@ impl HtmlFilterBodyAction {
         // sequence for the next call instead of failing on invalid UTF-8
         let incomplete_tail = data.split_off(data.len() - incomplete_utf8_tail_len(&data));
 
+        // Fail before touching any state, so the caller can still recover the bytes held so far
+        let data = match String::from_utf8(data) {
+            Ok(valid) => valid.into_bytes(),
+            Err(error) => return Err(html::HtmlParseError::from(error).into()),
+        };
+
         let mut tokenizer = html::Tokenizer::new(data);
         let mut to_return = "".to_string();
 
